@@ -20,7 +20,8 @@ REPO_SRC = os.path.join(REPO, "src")
 LEAN_SRC_DIR = os.path.join(VERIF, "lean")
 # runs against a scratch copy of the repository (seeded-change experiments) build in their own copy of the lake
 # project, so that the regenerated data of /repo itself is never disturbed
-LEAN_DIR = LEAN_SRC_DIR if REPO == "/repo" else os.path.join(VERIF, "run", "lean-alt")
+_ALT_TAG = "".join(c for c in os.environ.get("VERIF_RUN_TAG", "") if c.isalnum() or c in "-_")
+LEAN_DIR = LEAN_SRC_DIR if REPO == "/repo" else os.path.join(VERIF, "run", "lean-alt" + ("-" + _ALT_TAG if _ALT_TAG else ""))
 DRIVER = os.path.join(LEAN_DIR, ".lake", "build", "bin", "driver")
 RUN_DIR = os.path.join(VERIF, "run")
 # evidence/ is only written by runs against /repo itself; runs against a scratch copy (seeded-change
